@@ -219,6 +219,7 @@ ASPECTS = [f'name:{k}' for k in KINDS] + ['set-identifier', 'header-id', 'ident:
                                           'channel-in-two-frames', 'non-uniform-index', 'non-uniform-index+spacing',
                                           'non-uniform-index+direction', 'non-uniform-index+index-min-max',
                                           'non-uniform-index-decreasing', 'non-uniform-index-up-and-down',
+                                          'channel-in-two-frames-and-another-in-none',
                                           'unit:channel', 'unit:attr',
                                           'index-type', 'eq-type', 'eq-location', 'none', 'none-no-fsn']
 # other shapes of a non-conforming identifier (one trailing line feed is what `$` in a regular expression lets through)
@@ -318,6 +319,10 @@ def breach_spec(aspect):
         ops[3]['kw']['data'] = S.arr_spec('int16', [3], [1, 2, 3])
     elif aspect == 'channel-in-no-frame':
         ops.append(S.op_add('channel', 'C2', 'LONELY', data=S.arr_spec('uint8', [3], [1, 2, 3])))
+    elif aspect == 'channel-in-two-frames-and-another-in-none':
+        # two breaches whose channel-to-frame counts cancel out
+        ops.append(S.op_add('channel', 'C2', 'LONELY', data=S.arr_spec('uint8', [3], [1, 2, 3])))
+        ops.append(S.op_add('frame', 'F1', 'SECOND-FRAME', channels=[{'$ref': 'C1'}]))
     elif aspect == 'channel-in-two-frames':
         ops.append(S.op_add('frame', 'F1', 'SECOND-FRAME', channels=[{'$ref': 'C1'}]))
     elif aspect.startswith('non-uniform-index'):
